@@ -149,6 +149,20 @@ func ProfileFor(prop string) Profile {
 		p.WSet = 50
 		p.WStabilize = 36
 		p.WAddRemove = 0
+	case "mix":
+		// everything at once: binds and memoized binds, cutoffs, always nodes, MapN edits, observers
+		// on scope nodes, failing / panicking / cancelled passes, mid-pass writes
+		p.WBind = 18
+		p.Memo = 20
+		p.Cutoffs = 18
+		p.AlwaysShare = 6
+		p.WFaultPass = 22
+		p.WCancelled = 6
+		p.WMidSet = 25
+		p.PairWrites = 10
+		p.Inner = 15
+		p.WAddRemove = 9
+		p.WUnobserve = 10
 	case "cutfaults":
 		// cutoffs of every kind under faults and cancelled passes: a pass stopped after a cutoff's
 		// input took a new value and before the cutoff was reached, then the retry
